@@ -24,13 +24,20 @@ MemberRecords(m, flavour) ==
   IF m[1] = "gene" THEN <<<<"gene", <<<<m[2], m[3]>>>>, m[4], m[5], m[6], "">>>> \o Flat([i \in DOMAIN m[7] |-> TxRecords(m[7][i], m, flavour)])
   ELSE <<<<"misc_feature", <<<<m[2], m[3]>>>>, m[4], "", m[6], "">>>> \o      \* the collection name is written as /misc_feature
        [i \in DOMAIN m[7] |-> <<"feat_interval", m[7][i][1], m[4], m[5], m[6], "">>]
+ModelTypes == {"gene", "mRNA", "CDS", "ncRNA", "tRNA", "rRNA", "misc_RNA", "misc_feature", "feat_interval"}
 Expected(model, flavour) == Flat([i \in DOMAIN model |-> MemberRecords(model[i], flavour)])
 
 (* ["gbk", flavour, model, records, sequenceEqual, translations, partOrders] *)
 VGbk(ev) ==
   FirstBad(<<
     Ok(ev[5], "independent-reader:sequence"),
-    Ok(BagOf(ev[4]) = BagOf(Expected(ev[3], ev[2])), "independent-reader:records(type,blocks,strand,identifiers)"),
+    \* every record the model calls for is in the file, as often as called for; a file may say MORE (a source record,
+    \* other annotation) but no further record of a type the gene models are written with
+    LET want == BagOf(Expected(ev[3], ev[2])) got == BagOf(ev[4]) IN
+      IF ~(\A r \in DOMAIN want : r \in DOMAIN got /\ got[r] >= want[r])
+      THEN "independent-reader:records(type,blocks,strand,identifiers)"
+      ELSE IF \E r \in DOMAIN got : r[1] \in ModelTypes /\ (r \notin DOMAIN want \/ got[r] > want[r])
+      THEN "independent-reader:spurious-record" ELSE "ok",
     \* a multi-part location lists its parts 5'->3' (descending on the minus strand): ev[7] = <<strand, starts in file order>>...
     IF \A i \in DOMAIN ev[7] : LET st == ev[7][i][1] ps == ev[7][i][2] IN
           \A k \in 1..(Len(ps) - 1) : IF st = "-" THEN ps[k] > ps[k + 1] ELSE ps[k] < ps[k + 1]
